@@ -152,6 +152,8 @@ fn write_clause(w: &Value) -> String {
             }
             s
         }
+        // MERGE of a relationship between the two bound endpoints
+        "mergerel" => format!("MERGE (n)-[r:{}]->(m)", gs(w, "t")),
         "set" => format!("SET {}", set_items(&w["items"])),
         "remove" => {
             let v: Vec<String> = w["items"]
@@ -165,6 +167,11 @@ fn write_clause(w: &Value) -> String {
                 })
                 .collect();
             format!("REMOVE {}", v.join(", "))
+        }
+        // plain / DETACH DELETE naming several variables, in the given order
+        "deletemany" => {
+            let vs: Vec<&str> = w["vars"].as_array().unwrap().iter().map(|v| v.as_str().unwrap()).collect();
+            format!("{}DELETE {}", if w["detach"].as_bool().unwrap() { "DETACH " } else { "" }, vs.join(", "))
         }
         "delete" => format!("{}DELETE {}", if w["detach"].as_bool().unwrap() { "DETACH " } else { "" }, gs(w, "var")),
         other => panic!("bad write kind {other}"),
